@@ -1,7 +1,6 @@
 package main
 
 import (
-	"encoding/binary"
 	"encoding/json"
 	"fmt"
 	"math/rand"
@@ -20,80 +19,15 @@ import (
 	"github.com/lindb/lindb/pkg/timeutil"
 	"github.com/lindb/lindb/verif/internal/core"
 	"github.com/lindb/lindb/verif/internal/imgfs"
+	"github.com/lindb/lindb/verif/internal/kvtok"
 	"github.com/lindb/lindb/verif/internal/seam"
 )
 
-const mergerName = "verifTokenUnion"
+const mergerName = kvtok.MergerName
 
-// ---- value encoding: [n uint32][n tokens uint32][padding] ----
+func encodeValue(tokens []uint32, pad int) []byte { return kvtok.Encode(tokens, pad) }
 
-func encodeValue(tokens []uint32, pad int) []byte {
-	sort.Slice(tokens, func(i, j int) bool { return tokens[i] < tokens[j] })
-	buf := make([]byte, 4+4*len(tokens)+pad)
-	binary.LittleEndian.PutUint32(buf, uint32(len(tokens)))
-	for i, t := range tokens {
-		binary.LittleEndian.PutUint32(buf[4+4*i:], t)
-	}
-	for i := 4 + 4*len(tokens); i < len(buf); i++ {
-		buf[i] = byte(i * 31)
-	}
-	return buf
-}
-
-func decodeValue(v []byte) ([]uint32, error) {
-	if len(v) < 4 {
-		return nil, fmt.Errorf("value too short (%d bytes)", len(v))
-	}
-	n := int(binary.LittleEndian.Uint32(v))
-	if n < 0 || 4+4*n > len(v) {
-		return nil, fmt.Errorf("value header says %d tokens but only %d bytes", n, len(v))
-	}
-	out := make([]uint32, n)
-	for i := 0; i < n; i++ {
-		out[i] = binary.LittleEndian.Uint32(v[4+4*i:])
-	}
-	for i := 4 + 4*n; i < len(v); i++ {
-		if v[i] != byte(i*31) {
-			return nil, fmt.Errorf("padding byte %d corrupted", i)
-		}
-	}
-	return out, nil
-}
-
-// tokenMerger is the harness' merger: the merged value of a key is the union of the tokens of its values.
-type tokenMerger struct {
-	flusher kv.Flusher
-}
-
-func (m *tokenMerger) Init(map[string]interface{}) {}
-
-func (m *tokenMerger) Merge(key uint32, values [][]byte) error {
-	set := map[uint32]struct{}{}
-	pad := 0
-	for _, v := range values {
-		ts, err := decodeValue(v)
-		if err != nil {
-			return fmt.Errorf("merge key %d: %w", key, err)
-		}
-		for _, t := range ts {
-			set[t] = struct{}{}
-		}
-		if p := len(v) - 4 - 4*len(ts); p > pad {
-			pad = p
-		}
-	}
-	var ts []uint32
-	for t := range set {
-		ts = append(ts, t)
-	}
-	return m.flusher.Add(key, encodeValue(ts, pad))
-}
-
-func init() {
-	kv.RegisterMerger(mergerName, func(flusher kv.Flusher) (kv.Merger, error) {
-		return &tokenMerger{flusher: flusher}, nil
-	})
-}
+func decodeValue(v []byte) ([]uint32, error) { return kvtok.Decode(v) }
 
 // ---- ledger ----
 
